@@ -652,6 +652,20 @@ func framerRules(r *engine.Report, p *engine.Program) {
 	streamReaderKeepsBytes(r, p)
 	sizeIndependentPath(r, p)
 	nameHashRules(r, p)
+	// path lengths up to the hop limit: the forwarding budget is tested before it is decremented
+	// and decremented exactly once per relay (clauses decided by C10's rules)
+	{
+		sub := engine.NewReport("C10", r.Tier, p)
+		c10(sub, p)
+		if r.ImportFrom(sub, "R7-hop-accounting", "R2-positive-budget", "R3-decrement") < 2 {
+			r.Broken("C10 hop-accounting obligations not generated")
+		}
+	}
+	if rpf := p.Func("(*netceptor.Netceptor).runProtocol"); rpf != nil {
+		okD, whyD := decodedAlwaysDispatched(p, rpf)
+		r.Check("R3-delivery", "runProtocol: every successfully decoded data packet is handed to handleMessageData", rpf.Pos(), okD,
+			"from the decode, assuming it succeeded, the next select/return is unreachable without passing handleMessageData", whyD)
+	}
 }
 
 // sizeIndependentPath: a payload of any length up to the advertised MTU takes the same path. On
